@@ -80,7 +80,11 @@ def _text_lines(draw, enc, kind, declared):
     n = draw(st.integers(1, 5))
     lines = draw(st.lists(st.sampled_from(pool), min_size=n, max_size=n))
 
-    if draw(st.integers(0, 5)) == 0:
+    if draw(st.integers(0, 19)) == 0:
+        # many lines: logical line numbers cross 100 and 1000
+        n = draw(st.sampled_from([98, 99, 100, 101, 998, 999, 1000, 1001]))
+        lines = ['l%d' % i for i in range(n)]
+    elif draw(st.integers(0, 5)) == 0:
         # a tiny text (shorter than its own indentation)
         lines = [draw(st.sampled_from(['', 'x', 'ab']))]
         n = 1
@@ -149,6 +153,15 @@ def docs(draw, allow_unencoded=True, allow_nonobject_meta=False,
         declared = draw(st.booleans())
         lines = draw(_text_lines(raw_codec, kind, declared))
         indent = draw(st.sampled_from([None, None, 0, 1, 4, 4, 4, 7, 7]))
+
+        if draw(st.integers(0, 9)) == 0:
+            # an indent related to the text: as long as the first line, one
+            # more, or as long as the whole text
+            indent = draw(st.sampled_from(
+                [len(lines[0]), len(lines[0]) + 1,
+                 len(lines[0]) + len(spec.nl_str(kind)),
+                 sum(len(l) + 1 for l in lines)])) or 1
+            indent = min(indent, 300)
         sections.append({
             'id': sid, 'encoding': own, 'raw_codec': raw_codec,
             'lines': lines, 'kind': kind, 'declare_le': declared,
